@@ -101,6 +101,8 @@ def free_monoid_case(H, L, shape, dim, api, left, kind='contig', algebra='seq'):
     operation normalises adjacent contiguous products P(i,j)++P(j+1,k) -> P(i,k) and leaves every other product as an
     uninterpreted Cat(.,.) (in the free monoid such a product is NOT a contiguous product, so a stuck term refutes)."""
     name = 'C12/free/%s/L=%d/shape=%s/dim=%d/%s/%s' % (api, L, 'x'.join(map(str, shape)), dim, kind, algebra)
+    if getattr(H, 'only', None) and H.only not in name:
+        return
     ctx = Ctx()
     n = 1
     for s in shape:
@@ -193,6 +195,8 @@ def lie_case(H, g, L, api, left, method, lshape=None, dim=0, unit=True):
         name += '/lshape=%s/dim=%d' % ('x'.join(map(str, lshape)), dim)
     if not unit:
         name += '/non-unit-quaternions'
+    if getattr(H, 'only', None) and H.only not in name:
+        return
     nel = 1
     for s_ in lshape:
         nel *= s_
@@ -213,8 +217,40 @@ def lie_case(H, g, L, api, left, method, lshape=None, dim=0, unit=True):
             Y = getattr(pp, api)(inp, dim, left=left)
         return m.full_terms(Y.tensor()), m.full_terms(inp.tensor()), xs, m, Y
 
+    def replay(model):
+        vals = tensor_from_env(['x%d' % i for i in range(nel * GDIM[g])], model)
+        X = rand_group(g, 40 + L, shape=lshape)
+        if not unit:
+            X = pp.LieTensor(X.tensor() * (1 + 0.3 * torch.rand(lshape + (1,), dtype=X.dtype, generator=torch.Generator().manual_seed(5))), ltype=X.ltype)
+        if float(vals.abs().sum()) != 0:
+            X = pp.LieTensor(vals.view(lshape + (GDIM[g],)).to(X.dtype), ltype=X.ltype)
+        inp = X.clone()
+        try:
+            Y = getattr(inp, api)(dim, left=left) if method else getattr(pp, api)(inp, dim, left=left)
+        except Exception as e:
+            return True, '%s(dim=%d) on lshape %s raised %s: %s' % (api, dim, lshape, type(e).__name__, str(e)[:100])
+        if tuple(Y.shape) != tuple(X.shape):
+            return True, 'result shape %s for input %s' % (tuple(Y.shape), tuple(X.shape))
+        Xm, Ym = X.tensor().movedim(ax, 0), Y.tensor().movedim(ax, 0)
+        item = lambda i: pp.LieTensor(Xm[i].contiguous(), ltype=X.ltype)
+        worst = 0.0
+        acc = item(0)
+        for i in range(L):
+            if i:
+                acc = (item(i) @ acc) if left else (acc @ item(i))
+            worst = max(worst, (Ym[i] - acc.tensor()).abs().max().item() / (1 + acc.tensor().abs().max().item()))
+        return worst > 1e-9, '%s(dim=%d, left=%s) on %s of lshape %s differs from the ordered product along that dimension by %.3g (relative)' % (api, dim, left, g, lshape, worst)
+
+    def on_raise(ctx, e):
+        H.absorb(ctx)
+        bad, det = replay({})
+        if bad:
+            H.violation('C12/raises/%s' % api, '%s: %s' % (name, det), {'group': g, 'L': L, 'api': api, 'lshape': list(lshape), 'dim': dim})
+        else:
+            H.engine_error(name, e)
+
     try:
-        for ctx, (y, after, xs, m, Y) in run_paths(H, name, prog):
+        for ctx, (y, after, xs, m, Y) in run_paths(H, name, prog, raised=on_raise):
             selftest(H, ctx, m, [(y, Y.tensor())], name)
             n = GDIM[g]
             elem = lambda e: xs[e * n:(e + 1) * n]
@@ -245,7 +281,7 @@ def lie_case(H, g, L, api, left, method, lshape=None, dim=0, unit=True):
             rels = [unit_rel(g, elem(e)) for e in range(nel)] if unit else []
             hyp = H.hyps_of(ctx)
             for i, (l, r) in enumerate(zip(y, flat_or)):
-                H.certify('%s[%d]' % (name, i), l, r, rels, key='C12/lie/%s' % api, hyps=hyp)
+                H.certify('%s[%d]' % (name, i), l, r, rels, key='C12/lie/%s' % api, hyps=hyp, replay=replay)
             if api.endswith('_'):
                 for i, (l, r) in enumerate(zip(after, y)):
                     H.prove('%s/inplace[%d]' % (name, i), [], l == r, key='C12/inplace')
